@@ -70,7 +70,13 @@ Record seed_stmt := mkSeedStmt { ss_callee : seed_callee; ss_arg : seed_arg; ss_
 
 (* ---- (d) (e) (f) (g) ---------------------------------------------------------------------------------------------------- *)
 Record hash_def := mkHashDef { hd_file : string; hd_line : nat; hd_class : string; hd_method : string }.
-Record sort_call := mkSort { so_file : string; so_line : nat; so_func : string; so_callee : string; so_has_key : bool; so_what : string }.
+(* what a sorted( ) call orders.  ElemsNumeric: its single argument is a comprehension / display / range whose element expression
+   is syntactically a number (int arithmetic, len/int/float, .ndim/.shape[i], or a name guarded by an order comparison with a
+   number in the always-evaluated test of a conditional expression) — see `numeric_expr` in lib/py2coq/gen_census.py for the
+   rules and what they assume.  ElemsUnknown: anything else (in particular every .sort( ) call).                                   *)
+Inductive sort_elems := ElemsNumeric | ElemsUnknown.
+Record sort_call := mkSort { so_file : string; so_line : nat; so_func : string; so_callee : string; so_has_key : bool;
+                             so_elems : sort_elems; so_what : string }.
 Record site := mkSite { s_file : string; s_line : nat; s_func : string; s_text : string }.
 
 (* ======================================================================================================================== *)
@@ -154,7 +160,10 @@ Definition hash_row_ok (uses : list set_use) (d : draw) : bool :=
   | _ => true
   end.
 
-Definition sort_ok (s : sort_call) : bool := so_has_key s.
+(* a sort is harmless when an explicit key decides the order (a key that is id/hash is an AddressOrHash row with use Value and is
+   rejected by hash_row_ok), or when what it orders are numbers *)
+Definition sort_ok (s : sort_call) : bool :=
+  so_has_key s || match so_elems s with ElemsNumeric => true | ElemsUnknown => false end.
 
 Definition uninit_ok (s : site) : bool := str_eqb (s_file s) "tensor.py" && str_eqb (s_func s) "empty".
 
